@@ -26,6 +26,10 @@ MODELS = {
     "MC_Math": {"module": "MC_Math", "quick": "MC_Math.cfg", "thorough": "MC_Math_thorough.cfg", "workers": 8, "timeout_quick": 300, "timeout_thorough": 1800,
                 "sample": "formula lemmas on a grid (reserves, offer, supply, fee, tolerance): product monotone, round trip never profits, mint/withdraw "
                           "never dilute, tolerance predicates monotone, proportional deposits accepted, penalty bound/formula/decay/shares"},
+    "MC_Stable": {"module": "MC_Stable", "quick": "MC_Stable.cfg", "thorough": "MC_Stable_thorough.cfg", "workers": 6, "timeout_quick": 300, "timeout_thorough": 1800,
+                  "sample": "the stableswap oracle itself on a grid of two-asset pools (reserves, amplification, offer): RootFloor is the floor of the root, "
+                            "accepted outputs form a non-empty interval that is as narrow as the tolerance once balances are scaled, accepted outputs keep the "
+                            "invariant and a round trip never profits"},
     "MC_AuthObj": {"module": "MC_AuthObj", "quick": "MC_AuthObj.cfg", "thorough": "MC_AuthObj.cfg", "workers": 1, "timeout_quick": 120,
                    "sample": "complete graph of farm expand/close and position create-for/expand/close/withdraw/emergency x 5 sender roles x every state of (farm, position)"},
     "MC_Pool": {"module": "MC_Pool", "quick": "MC_Pool.cfg", "thorough": "MC_Pool_thorough.cfg",
@@ -98,7 +102,7 @@ PROPS = {
     "C20": {"level": "fault_enumeration", "models": ["MC_Exec"], "families": ["fault", "farm", "pool", "epoch", "auth"]},
     "C01": {"level": "model_checking", "models": ["MC_Pool"], "families": ["pool"]},
     "C02": {"level": "model_checking", "models": ["MC_Pool", "MC_Math"], "families": ["pool"], "proofs": ["proofs/PoolLemmas.tla"]},
-    "C03": {"level": "model_checking", "models": ["MC_Pool", "MC_Math"], "families": ["pool"], "proofs": ["proofs/PoolLemmas.tla"]},
+    "C03": {"level": "model_checking", "models": ["MC_Pool", "MC_Math", "MC_Stable"], "families": ["pool"], "proofs": ["proofs/PoolLemmas.tla"]},
     "C04": {"level": "model_checking", "models": ["MC_Pool", "MC_Math"], "families": ["pool"], "proofs": ["proofs/PoolLemmas.tla"]},
     "C12": {"level": "model_checking", "models": [], "families": ["pool"]},
     "C13": {"level": "model_checking", "models": ["MC_Math"], "families": ["pool"]},
@@ -108,7 +112,7 @@ PROPS = {
                             "authorisation is judged on the farm/pool traces (C15_* guards), which are sampled"]},
     "C16": {"level": "model_checking", "models": [], "families": ["pool"]},
     "C17": {"level": "model_checking", "models": ["MC_Pool"], "families": ["pool"]},
-    "C19": {"level": "model_checking", "models": ["MC_Math"], "families": ["pool"]},
+    "C19": {"level": "model_checking", "models": ["MC_Math", "MC_Stable"], "families": ["pool"]},
     "C05": {"level": "model_checking", "models": ["MC_FarmLife"], "families": ["farm", "pool"]},
     "C06": {"level": "model_checking", "models": ["MC_Farm", "MC_FarmLife"], "families": ["farm"], "proofs": ["proofs/FarmLemmas.tla"]},
     "C07": {"level": "model_checking", "models": ["MC_Farm"], "families": ["farm"], "proofs": ["proofs/FarmLemmas.tla"]},
